@@ -1,4 +1,7 @@
 #!/bin/sh
 # run the repository's own suite (guard off); prints the pytest exit status
-cd "${1:-/repo}" && /venv/bin/python -m pytest -q -p no:cacheprovider --timeout=900 -q ${2:-} 2>&1 | tail -3
-echo "pytest-exit=$?"
+cd "${1:-/repo}" || exit 2
+out=$(/venv/bin/python -m pytest -q -p no:cacheprovider --timeout=900 -q ${2:-} 2>&1); rc=$?
+echo "$out" | tail -3
+echo "pytest-exit=$rc"
+exit $rc
